@@ -21,6 +21,8 @@
 #include <polynomial.h>
 #include <polynomial_vector.h>
 
+#include "polynomial/polynomial.h"
+
 #include <stdlib.h>
 #include <string.h>
 #include <assert.h>
@@ -126,6 +128,8 @@ void lp_polynomial_heap_push(lp_polynomial_heap_t* heap, const lp_polynomial_t* 
 
 void lp_polynomial_heap_push_move(lp_polynomial_heap_t* heap, lp_polynomial_t* p) {
   lp_polynomial_t *tmp = lp_polynomial_new(lp_polynomial_get_context(p));
+  // The stored polynomial is not external: take it in the current variable order
+  lp_polynomial_external_clean(p);
   lp_polynomial_swap(tmp, p);
   lp_polynomial_heap_insert(heap, tmp);
 }
